@@ -2,9 +2,8 @@
    Proved here: how the operands are restricted (to the region where both are defined), the formulas the results are
    computed by (unfoldings of the model, which mirrors the code), lag = shift of g by -lag with the clip='pre' / 'post'
    window rule, and symmetry in f and g. The means and variances that occur are the length-weighted ones of C08.
-   NOT proved (correspondence + oracle only):
-   |corr| <= 1 (Cauchy-Schwarz); corr itself involves a square root: the model returns
-   sign(cov) * cov^2 / (var_f * var_g). *)
+   corr itself involves a square root: the model returns sign(cov) * cov^2 / (var_f * var_g), and the theorems (symmetry,
+   the bound) are stated for that signed square; numpy's sqrt is tied to it by the correspondence check. *)
 From Coq Require Import List QArith Qcanon.
 Require Import SC.Base.Ord SC.Base.Val SC.Base.Series SC.Base.QcOrd SC.Model.Repr SC.Model.Ops SC.Model.Masking
                SC.Model.Sampling SC.Model.Stats SC.Model.Slicing.
@@ -75,3 +74,13 @@ Theorem cov_of_f_with_itself_is_var :
     cov f f (Some a) (Some b) 0 lc = Ok v -> clipped_var f (Some a) (Some b) = Ok v' -> v = v'.
 Proof. exact cov_self_is_var. Qed.
 Print Assumptions cov_of_f_with_itself_is_var.
+
+(* corr lies in [-1, 1]: the model returns the signed square sign(cov) cov^2 / (var_f var_g), which lies in [-1, 1] exactly
+   when cov / (std_f std_g) does. Cauchy-Schwarz over the common refinement of the three clipped tables. *)
+Require Import SC.Proofs.CorrBoundFacts.
+
+Theorem corr_lies_between_minus_one_and_one :
+  forall (f g : stairsQ) (a b : Qc) lc (r : Qc), wf f -> wf g ->
+    corr_signed_square f g (Some a) (Some b) 0 lc = Ok (Some r) -> - (1) <= r /\ r <= 1.
+Proof. exact corr_bounded. Qed.
+Print Assumptions corr_lies_between_minus_one_and_one.
